@@ -211,8 +211,9 @@ def is_none(x):
 STANDINS = []        # (name, props, fn)  -- bounded checks, labelled bounded, never counted as proved
 
 
-def standin(name, props=()):
+def standin(name, props=(), thorough_only=False):
     def deco(fn):
+        fn._thorough_only = thorough_only
         STANDINS.append((name, list(props), fn))
         return fn
     return deco
